@@ -22,7 +22,7 @@ RULE = (
 ASSUMPTIONS = [
     'overlap graphs handed to find_offsets are connected (as get_series_time_offsets guarantees); uniqueness is asserted only when rank = n-1',
 ]
-SIZES = {'quick': dict(hm=500, gi=160, ds=60, cli=8), 'thorough': dict(hm=24000, gi=6000, ds=2400, cli=160, field=True)}
+SIZES = {'quick': dict(hm=1600, gi=400, ds=120, cli=12), 'thorough': dict(hm=24000, gi=6000, ds=2400, cli=160, field=True)}
 REQUIRED = {
     tier: {
         'find_offsets-calls-checked': 200,
